@@ -261,8 +261,9 @@ def resolve_attr_path(node):
     while isinstance(x, ast.Attribute):
         attr_path.append(x.attr)
         x = x.value
-    if isinstance(x, ast.Name):
-        attr_path.append(x.id)
+    if not isinstance(x, ast.Name):
+        raise InvalidOperation("Error, only calls on a (dotted) name are allowed")
+    attr_path.append(x.id)
     return ".".join(reversed(attr_path))
 
 
